@@ -1,16 +1,16 @@
 (* Proofs/C10_Form.v — what a unit-system regex of string_to_bytes admits.
 
    The regexes are regenerated from the source; this file does not mention any
-   of them.  It defines the SHAPE  (^[sign]?D*[dot]?D+)(PRE)?(U)$  by a
-   pattern-matching function [unit_parts], a boolean checker [unit_ok r prefixes]
+   of them.  It defines the SHAPE  (^[sign]?D*[dot]?D+)(PRE)?(U)\Z  (the \Z being the translator's flag) by a
+   pattern-matching function [unit_parts], a boolean checker [unit_ok (r, eos) prefixes]
    (evaluated by vm_compute on whatever regex was generated) and proves, for
    every regex that passes the checker:
 
-     unit_match_iff_form   re_matchb r t = true <-> form prefixes t
+     unit_match_iff_form   rz_matchb (r, eos) t = true <-> form prefixes t
      unit_match_groups     the three groups are the number, the prefix (absent
                            when empty) and the unit of ANY decomposition of t *)
 From Coq Require Import String.
-Require Import OV.Base.Bytes OV.Base.PyInt OV.Base.Regex OV.Proofs.C10_Regex.
+Require Import OV.Base.Bytes OV.Base.PyInt OV.Base.Regex OV.Model.C10_Regex OV.Proofs.C10_Regex.
 Open Scope N_scope.
 
 (* ---------- inversion of derivations ---------- *)
@@ -240,12 +240,12 @@ Qed.
 
 Definition unit_shape (cs_s cs_d1 cs_dot cs_d2 : cset) (PRE U : re) : re :=
   Seq (Group 1 (Seq Bol (Seq (Rep cs_s 0 (Some 1%nat)) (Seq (Rep cs_d1 0 None) (Seq (Rep cs_dot 0 (Some 1%nat)) (Rep cs_d2 1 None))))))
-      (Seq (Opt (Group 2 PRE)) (Seq (Group 3 U) Eol)).
+      (Seq (Opt (Group 2 PRE)) (Group 3 U)).
 
 Definition unit_parts (r : re) : option (cset * cset * cset * cset * re * re) :=
   match r with
   | Seq (Group 1%nat (Seq Bol (Seq (Rep cs_s 0%nat (Some 1%nat)) (Seq (Rep cs_d1 0%nat None) (Seq (Rep cs_dot 0%nat (Some 1%nat)) (Rep cs_d2 1%nat None))))))
-        (Seq (Opt (Group 2%nat PRE)) (Seq (Group 3%nat U) Eol)) => Some (cs_s, cs_d1, cs_dot, cs_d2, PRE, U)
+        (Seq (Opt (Group 2%nat PRE)) (Group 3%nat U)) => Some (cs_s, cs_d1, cs_dot, cs_d2, PRE, U)
   | _ => None
   end.
 
@@ -266,10 +266,10 @@ Definition numform (num : str) : Prop :=
     (sg = [] \/ sg = [43] \/ sg = [45]) /\ digits d1 = true /\
     (dot = [] \/ dot = [46]) /\ digits d2 = true /\ d2 <> [].
 
-(* [sign]number[prefix]unit, optionally followed by one newline (Python's $) *)
+(* [sign]number[prefix]unit and nothing else *)
 Definition form (prefixes : list str) (t : str) : Prop :=
-  exists num pre un nl, t = num ++ pre ++ un ++ nl /\ numform num /\
-    (pre = [] \/ In pre prefixes) /\ In un units3 /\ (nl = [] \/ nl = [10]).
+  exists num pre un, t = num ++ pre ++ un /\ numform num /\
+    (pre = [] \/ In pre prefixes) /\ In un units3.
 
 Definition numchar (c : N) : bool := (c =? 43) || (c =? 45) || (c =? 46) || is_digit c.
 
@@ -307,7 +307,7 @@ Qed.
 
 (* unique decomposition of the text after the number *)
 Definition tails (prefixes : list str) : list (str * str * str) :=
-  flat_map (fun pre => flat_map (fun un => [(pre, un, []); (pre, un, [10])]) units3) ([] :: prefixes).
+  flat_map (fun pre => flat_map (fun un => [(pre, un, [])]) units3) ([] :: prefixes).
 Definition tcat (x : str * str * str) : str := fst (fst x) ++ snd (fst x) ++ snd x.
 Definition teqb (x y : str * str * str) : bool :=
   beq (fst (fst x)) (fst (fst y)) && beq (snd (fst x)) (snd (fst y)) && beq (snd x) (snd y).
@@ -316,11 +316,11 @@ Definition uniq_ok (prefixes : list str) : bool :=
   forallb (fun x => head_not_numchar (tcat x) && forallb (fun y => implb (beq (tcat x) (tcat y)) (teqb x y)) (tails prefixes))
           (tails prefixes).
 
-Lemma in_tails prefixes pre un nl :
-  (pre = [] \/ In pre prefixes) -> In un units3 -> (nl = [] \/ nl = [10]) -> In (pre, un, nl) (tails prefixes).
+Lemma in_tails prefixes pre un :
+  (pre = [] \/ In pre prefixes) -> In un units3 -> In (pre, un, []) (tails prefixes).
 Proof.
-  intros Hp Hu Hn. unfold tails. apply in_flat_map. exists pre. split; [destruct Hp as [->|Hp]; [left; reflexivity|right; exact Hp]|].
-  apply in_flat_map. exists un. split; [exact Hu|]. destruct Hn as [->| ->]; [left|right; left]; reflexivity.
+  intros Hp Hu. unfold tails. apply in_flat_map. exists pre. split; [destruct Hp as [->|Hp]; [left; reflexivity|right; exact Hp]|].
+  apply in_flat_map. exists un. split; [exact Hu|]. left. reflexivity.
 Qed.
 
 Lemma span_unique : forall a a' b b',
@@ -339,35 +339,37 @@ Proof.
 Qed.
 
 Lemma decomposition_unique prefixes : uniq_ok prefixes = true ->
-  forall num pre un nl num' pre' un' nl',
-  numform num -> (pre = [] \/ In pre prefixes) -> In un units3 -> (nl = [] \/ nl = [10]) ->
-  numform num' -> (pre' = [] \/ In pre' prefixes) -> In un' units3 -> (nl' = [] \/ nl' = [10]) ->
-  num ++ pre ++ un ++ nl = num' ++ pre' ++ un' ++ nl' ->
-  num = num' /\ pre = pre' /\ un = un' /\ nl = nl'.
+  forall num pre un num' pre' un',
+  numform num -> (pre = [] \/ In pre prefixes) -> In un units3 ->
+  numform num' -> (pre' = [] \/ In pre' prefixes) -> In un' units3 ->
+  num ++ pre ++ un = num' ++ pre' ++ un' ->
+  num = num' /\ pre = pre' /\ un = un'.
 Proof.
-  intros HU num pre un nl num' pre' un' nl' Hn Hp Hu Hl Hn' Hp' Hu' Hl' E.
+  intros HU num pre un num' pre' un' Hn Hp Hu Hn' Hp' Hu' E.
   unfold uniq_ok in HU. rewrite forallb_forall in HU.
-  pose proof (in_tails prefixes pre un nl Hp Hu Hl) as I1.
-  pose proof (in_tails prefixes pre' un' nl' Hp' Hu' Hl') as I2.
+  pose proof (in_tails prefixes pre un Hp Hu) as I1.
+  pose proof (in_tails prefixes pre' un' Hp' Hu') as I2.
   pose proof (HU _ I1) as C1. pose proof (HU _ I2) as C2.
   apply andb_true_iff in C1. destruct C1 as [C1h C1u]. apply andb_true_iff in C2. destruct C2 as [C2h _].
-  destruct (span_unique num num' (pre ++ un ++ nl) (pre' ++ un' ++ nl')) as [-> E2];
+  unfold tcat in C1h, C2h. cbn [fst snd] in C1h, C2h. rewrite app_nil_r in C1h, C2h.
+  destruct (span_unique num num' (pre ++ un) (pre' ++ un')) as [-> E2];
     [apply numform_numchar; exact Hn|apply numform_numchar; exact Hn'|exact C1h|exact C2h|exact E|].
   split; [reflexivity|].
   rewrite forallb_forall in C1u. specialize (C1u _ I2).
-  unfold tcat in C1u. cbn [fst snd] in C1u.
+  unfold tcat in C1u. cbn [fst snd] in C1u. rewrite !app_nil_r in C1u.
   rewrite E2, beq_refl in C1u. cbn [implb] in C1u.
   unfold teqb in C1u. cbn [fst snd] in C1u.
-  apply andb_true_iff in C1u. destruct C1u as [C C3]. apply andb_true_iff in C. destruct C as [C1 C2].
-  apply beq_eq in C1, C2, C3. auto.
+  apply andb_true_iff in C1u. destruct C1u as [C _]. apply andb_true_iff in C. destruct C as [C1 C2].
+  apply beq_eq in C1, C2. auto.
 Qed.
 
 (* ---------- the checker ---------- *)
 
 Definition list_eqb (a b : list N) : bool := beq a b.
 
-Definition unit_ok (r : re) (prefixes : list str) : bool :=
-  match unit_parts r with
+Definition unit_ok (rz : re * bool) (prefixes : list str) : bool :=
+  snd rz &&
+  match unit_parts (fst rz) with
   | Some (cs_s, cs_d1, cs_dot, cs_d2, PRE, U) =>
       small cs_s && list_eqb (cset_elems cs_s) [43; 45] &&
       small cs_dot && list_eqb (cset_elems cs_dot) [46] &&
@@ -381,8 +383,11 @@ Definition unit_ok (r : re) (prefixes : list str) : bool :=
   end.
 
 Section Shape.
-Variables (r : re) (prefixes : list str).
-Hypothesis OK : unit_ok r prefixes = true.
+Variables (r : re) (eos : bool) (prefixes : list str).
+Hypothesis OK : unit_ok (r, eos) prefixes = true.
+
+Lemma ok_eos : eos = true.
+Proof. unfold unit_ok in OK. cbn [fst snd] in OK. apply andb_true_iff in OK. tauto. Qed.
 
 Lemma ok_parts : exists cs_s cs_d1 cs_dot cs_d2 PRE U Lp Lu,
   r = unit_shape cs_s cs_d1 cs_dot cs_d2 PRE U /\
@@ -394,7 +399,7 @@ Lemma ok_parts : exists cs_s cs_d1 cs_dot cs_d2 PRE U Lp Lu,
   (forall w, In w Lp <-> In w prefixes) /\ (forall w, In w Lu <-> In w units3) /\ ~ In [] prefixes.
 Proof.
   pose proof OK as OK'. clear OK. rename OK' into OK.
-  unfold unit_ok in OK.
+  unfold unit_ok in OK. cbn [fst snd] in OK. apply andb_true_iff in OK. destruct OK as [_ OK2]. clear OK. rename OK2 into OK.
   destruct (unit_parts r) as [[[[[[cs_s cs_d1] cs_dot] cs_d2] PRE] U]|] eqn:EP; [|discriminate].
   apply unit_parts_eq in EP.
   destruct (finite_lang PRE) as [Lp|] eqn:ELp; [|rewrite andb_false_r in OK; discriminate].
@@ -430,7 +435,7 @@ Lemma shape_inv t s' e g :
     let pre := match opre with Some p => p | None => [] end in
     t = num ++ pre ++ un ++ s' /\ numform num /\
     match opre with Some p => In p prefixes | None => True end /\
-    In un units3 /\ (s' = [] \/ s' = [10]) /\
+    In un units3 /\
     e = blen num + blen pre + blen un /\
     g = (3%nat, (blen num + blen pre, blen num + blen pre + blen un)) ::
         match opre with Some p => [(2%nat, (blen num, blen num + blen p))] | None => [] end ++
@@ -463,8 +468,7 @@ Proof.
   { unfold num. rewrite !blen_app. lia. }
   rewrite Hp1 in *.
   apply mt_seq_inv in H. destruct H as [s2 [p2 [g2 [Hopt H]]]].
-  apply mt_seq_inv in H. destruct H as [s3 [p3 [g3 [Hu Heol]]]].
-  apply mt_eol_inv in Heol. destruct Heol as [Hnl [-> [-> ->]]].
+  rename H into Hu.
   apply mt_group_inv in Hu. destruct Hu as [g3' [Hu ->]].
   destruct (finite_lang_sound U Lu ELu _ _ _ _ _ _ Hu) as [un [Iun [-> [-> ->]]]].
   apply mt_opt_inv in Hopt. destruct Hopt as [Hpre|[E1 [E2 E3]]]; [|subst s1 p2 g2].
@@ -473,20 +477,20 @@ Proof.
     exists num, (Some pre), un. cbn zeta.
     split; [unfold num; rewrite <- !app_assoc; reflexivity|].
     split; [exact Hnum|]. split; [apply HLp; exact Ipre|]. split; [apply HLu; exact Iun|].
-    split; [exact Hnl|]. split; reflexivity.
+    split; reflexivity.
   - exists num, None, un. cbn zeta. cbn [app]. rewrite blen_nil, N.add_0_r.
     split; [unfold num; rewrite <- !app_assoc; reflexivity|].
     split; [exact Hnum|]. split; [exact I|]. split; [apply HLu; exact Iun|].
-    split; [exact Hnl|]. split; reflexivity.
+    split; reflexivity.
 Qed.
 
 (* conversely every text of the form has a derivation *)
 Lemma shape_intro num pre un nl :
-  numform num -> (pre = [] \/ In pre prefixes) -> In un units3 -> (nl = [] \/ nl = [10]) ->
+  numform num -> (pre = [] \/ In pre prefixes) -> In un units3 ->
   exists e g, mt r (num ++ pre ++ un ++ nl) 0 [] nl e g.
 Proof.
   destruct ok_parts as [cs_s [cs_d1 [cs_dot [cs_d2 [PRE [U [Lp [Lu [-> [HS [HDot [HD1 [HD2 [ELp [ELu [HLp [HLu _]]]]]]]]]]]]]]]]].
-  intros [sg [d1 [dot [d2 [-> [Hsg [Hd1 [Hdot [Hd2 Hne]]]]]]]]] Hpre Hun Hnl.
+  intros [sg [d1 [dot [d2 [-> [Hsg [Hd1 [Hdot [Hd2 Hne]]]]]]]]] Hpre Hun.
   assert (Asg : allin cs_s sg = true /\ le_opt (length sg) (Some 1%nat)).
   { destruct Hsg as [->|[->| ->]]; cbn; (split; [|lia]); auto.
     - replace (cmem 43 cs_s) with true by (symmetry; apply HS; auto). reflexivity.
@@ -509,10 +513,8 @@ Proof.
     apply (mt_seq _ _ _ _ _ (d2 ++ rest) (0 + blen sg + blen d1 + blen dot) g); [apply mt_rep; [apply Adot|lia|apply Adot]|].
     apply mt_rep; [exact Hd2|exact Ld2|exact I]. }
   assert (Iu : In un Lu) by (apply HLu; exact Hun).
-  assert (Hu : forall p g, mt (Seq (Group 3 U) Eol) (un ++ nl) p g nl (p + blen un) ((3%nat, (p, p + blen un)) :: g)).
-  { intros p g. apply (mt_seq _ _ _ _ _ nl (p + blen un) ((3%nat, (p, p + blen un)) :: g)).
-    - apply mt_group. apply (finite_lang_complete U Lu ELu un Iu).
-    - destruct Hnl as [->| ->]; constructor. }
+  assert (Hu : forall p g, mt (Group 3 U) (un ++ nl) p g nl (p + blen un) ((3%nat, (p, p + blen un)) :: g)).
+  { intros p g. apply mt_group. apply (finite_lang_complete U Lu ELu un Iu). }
   destruct Hpre as [->|Hpre].
   - exists (pn + blen un), ((3%nat, (pn, pn + blen un)) :: [(1%nat, (0, pn))]).
     apply (mt_seq _ _ _ _ _ ([] ++ un ++ nl) pn [(1%nat, (0, pn))]); [apply mt_group; apply Hnum|].
@@ -524,53 +526,55 @@ Proof.
     apply mt_opt_some. apply mt_group. apply (finite_lang_complete PRE Lp ELp pre Ip).
 Qed.
 
-Theorem unit_match_iff_form t : re_matchb r t = true <-> form prefixes t.
+Theorem unit_match_iff_form t : rz_matchb (r, eos) t = true <-> form prefixes t.
 Proof.
-  unfold re_matchb. split.
-  - destruct (re_match r t) as [[e g]|] eqn:E; [|discriminate]. intros _.
-    apply re_match_sound in E. destruct E as [s' Hm].
-    apply shape_inv in Hm. destruct Hm as [num [opre [un [Ht [Hn [Hp [Hu [Hl _]]]]]]]].
-    exists num, (match opre with Some p => p | None => [] end), un, s'.
+  unfold rz_matchb, rz_match. cbn [fst snd]. rewrite ok_eos. split.
+  - destruct (re_match_end r true t) as [[e g]|] eqn:E; [|discriminate]. intros _.
+    apply re_match_end_sound in E.
+    apply shape_inv in E. destruct E as [num [opre [un [Ht [Hn [Hp [Hu _]]]]]]].
+    cbn zeta in Ht. rewrite app_nil_r in Ht.
+    exists num, (match opre with Some p => p | None => [] end), un.
     repeat split; try assumption. destruct opre; [right; exact Hp|left; reflexivity].
-  - intros [num [pre [un [nl [-> [Hn [Hp [Hu Hl]]]]]]]].
-    destruct (shape_intro num pre un nl Hn Hp Hu Hl) as [e [g Hm]].
-    apply re_match_complete in Hm. destruct (re_match r (num ++ pre ++ un ++ nl)); [reflexivity|congruence].
+  - intros [num [pre [un [-> [Hn [Hp Hu]]]]]].
+    destruct (shape_intro num pre un [] Hn Hp Hu) as [e [g Hm]]. rewrite !app_nil_r in Hm.
+    apply re_match_end_complete in Hm. destruct (re_match_end r true (num ++ pre ++ un)); [reflexivity|congruence].
 Qed.
 
 (* the groups of the answer are the components of any decomposition of the text *)
 Theorem unit_match_groups : uniq_ok prefixes = true ->
-  forall num pre un nl,
-  numform num -> (pre = [] \/ In pre prefixes) -> In un units3 -> (nl = [] \/ nl = [10]) ->
-  exists e g, re_match r (num ++ pre ++ un ++ nl) = Some (e, g) /\
-    group_text (num ++ pre ++ un ++ nl) g 1 = Some num /\
-    group_text (num ++ pre ++ un ++ nl) g 2 = (match pre with [] => None | _ => Some pre end) /\
-    group_text (num ++ pre ++ un ++ nl) g 3 = Some un.
+  forall num pre un,
+  numform num -> (pre = [] \/ In pre prefixes) -> In un units3 ->
+  exists e g, rz_match (r, eos) (num ++ pre ++ un) = Some (e, g) /\
+    group_text (num ++ pre ++ un) g 1 = Some num /\
+    group_text (num ++ pre ++ un) g 2 = (match pre with [] => None | _ => Some pre end) /\
+    group_text (num ++ pre ++ un) g 3 = Some un.
 Proof.
-  intros HU num pre un nl Hn Hp Hu Hl.
+  intros HU num pre un Hn Hp Hu. unfold rz_match. cbn [fst snd]. rewrite ok_eos.
   destruct ok_parts as [_ [_ [_ [_ [_ [_ [_ [_ [_ [_ [_ [_ [_ [_ [_ [_ [_ Hnonil]]]]]]]]]]]]]]]]].
-  destruct (shape_intro num pre un nl Hn Hp Hu Hl) as [e0 [g0 Hm0]].
-  apply re_match_complete in Hm0.
-  destruct (re_match r (num ++ pre ++ un ++ nl)) as [[e g]|] eqn:E; [|congruence].
+  destruct (shape_intro num pre un [] Hn Hp Hu) as [e0 [g0 Hm0]]. rewrite !app_nil_r in Hm0.
+  apply re_match_end_complete in Hm0.
+  destruct (re_match_end r true (num ++ pre ++ un)) as [[e g]|] eqn:E; [|congruence].
   exists e, g. split; [reflexivity|].
-  apply re_match_sound in E. destruct E as [s' Hm].
-  apply shape_inv in Hm. destruct Hm as [num' [opre [un' [Ht [Hn' [Hp' [Hu' [Hl' [_ Hg]]]]]]]]].
-  cbn zeta in Ht, Hg.
+  apply re_match_end_sound in E.
+  apply shape_inv in E. destruct E as [num' [opre [un' [Ht [Hn' [Hp' [Hu' [_ Hg]]]]]]]].
+  cbn zeta in Ht, Hg. rewrite app_nil_r in Ht.
   destruct opre as [p|].
-  - destruct (decomposition_unique prefixes HU num pre un nl num' p un' s' Hn Hp Hu Hl Hn' (or_intror Hp') Hu' Hl' Ht) as [<- [<- [<- <-]]].
+  - destruct (decomposition_unique prefixes HU num pre un num' p un' Hn Hp Hu Hn' (or_intror Hp') Hu' Ht) as [<- [<- <-]].
     subst g. unfold group_text. cbn [gget Nat.eqb app].
     split; [|split].
-    + f_equal. apply (slice_mid [] num (pre ++ un ++ nl)).
-    + destruct pre as [|c p']; [contradiction|]. f_equal. apply (slice_mid num (c :: p') (un ++ nl)).
+    + f_equal. apply (slice_mid [] num (pre ++ un)).
+    + destruct pre as [|c p']; [contradiction|]. f_equal. apply (slice_mid num (c :: p') un).
     + f_equal.
-      replace (num ++ pre ++ un ++ nl) with ((num ++ pre) ++ un ++ nl) by (rewrite <- app_assoc; reflexivity).
+      replace (num ++ pre ++ un) with ((num ++ pre) ++ un ++ []) by (rewrite <- !app_assoc, app_nil_r; reflexivity).
       replace (blen num + blen pre) with (blen (num ++ pre)) by apply blen_app.
       apply slice_mid.
-  - destruct (decomposition_unique prefixes HU num pre un nl num' [] un' s' Hn Hp Hu Hl Hn' (or_introl eq_refl) Hu' Hl' Ht) as [<- [-> [<- <-]]].
+  - destruct (decomposition_unique prefixes HU num pre un num' [] un' Hn Hp Hu Hn' (or_introl eq_refl) Hu' Ht) as [<- [-> <-]].
     subst g. unfold group_text. cbn [gget Nat.eqb app].
     split; [|split].
-    + f_equal. apply (slice_mid [] num (un ++ nl)).
+    + f_equal. apply (slice_mid [] num un).
     + reflexivity.
-    + f_equal. rewrite blen_nil, N.add_0_r. apply (slice_mid num un nl).
+    + f_equal. rewrite blen_nil, N.add_0_r.
+      replace (num ++ un) with (num ++ un ++ []) by (rewrite app_nil_r; reflexivity). apply (slice_mid num un []).
 Qed.
 
 End Shape.
